@@ -3,7 +3,7 @@ From Coq Require Import String ZArith List.
 Import ListNotations.
 Open Scope string_scope.
 
-Definition ban_atoms_canon : list string := ["[H]"; "[O].[O]"; "FF"; "ClCl"; "BrBr"; "II"; "ClBr"; "ClI"; "BrI"].
+Definition ban_atoms_canon : list string := ["[O].[O]"; "FF"; "ClCl"; "BrBr"; "II"; "ClBr"; "ClI"; "BrI"].
 Definition ban_atoms_reactants : list string := [".[H]"].
 Definition balancer_columns : list string := ["input_reaction"; "reaction"; "solved"; "solved_by"; "confidence"; "rules"; "issue"].
 Definition mcs_condition_count : nat := 3.
